@@ -17,6 +17,7 @@ import (
 	"github.com/ajitpratap0/GoSQLX/pkg/sql/tokenizer"
 
 	"verif/internal/core"
+	"verif/internal/gram"
 	"verif/internal/lexconc"
 	"verif/internal/ops"
 	"verif/internal/stmts"
@@ -262,7 +263,10 @@ func keywordCase(run *core.Run) {
 // or the end of input for a truncation.
 func parserErrorLocations(run *core.Run) {
 	located, unlocated := 0, 0
-	for _, base := range stmts.Base {
+	// hand-written base statements and a sample of Select.tla's statement forms
+	bases := append(append([]string{}, stmts.Base...), gram.FormTexts(run)...)
+	run.Extra["parser_error_base_statements"] = len(bases)
+	for _, base := range bases {
 		lex := stmts.Lexemes(base)
 		if len(lex) < 2 {
 			continue
@@ -322,6 +326,12 @@ func parserErrorLocations(run *core.Run) {
 					if want == "poison" && k+1 < len(toks) {
 						n := toks[k+1]
 						okNext = e.Line == n.Start.Line && e.Col == n.Start.Column
+					}
+					// ... and the token right before it: with one token of look-ahead the parser blames the
+					// word that needed a particular successor ("a NOT ]": NOT is not followed by IN/LIKE/BETWEEN)
+					if want == "poison" && k >= 1 {
+						n := toks[k-1]
+						okNext = okNext || (e.Line == n.Start.Line && e.Col == n.Start.Column)
 					}
 					if !okNext {
 						run.Violate(core.Violation{Sig: "parser-error-not-at-offending-token|" + want + "|" + e.Code, Clause: "a syntax error is located at the offending token",
